@@ -10,7 +10,7 @@ from vf.core import Prop, Result
 from vf.props.c05 import NAMES, parse_text, sexp_counts
 
 API_NAMES = ["a", "b", "c", "d", "clk", "data", "q", "sel", "Top", "U1", "n_1", "x y", "a.b", "3d",
-             "w/e", "net$1", "Q", "B", "row[0].q", "m[2]x", "Sel", "SEL", "Data", "DATA", "TOP"]
+             "w/e", "net$1", "Q", "B", "row[0].q", "m[2]x", "Sel", "SEL", "Data", "DATA", "TOP", "_u", "$v"]
 
 
 def edif_view(nl):
